@@ -70,14 +70,15 @@ def run_kernels(ks, gen_report, seed, n_lattice, n_real, driver, custom_gen=None
         if rep is None or rep.get('status') != 'ok':
             st['untranslated'] = True
             continue
-        f = lbg.resolve_real(k['target'])
+        f = lbg.resolve_real(k['target'], k.get('ctor', False))
         g = lbg.Gen(seed, 'kcorr/' + k['name'])
         for stream, n in (('lattice', n_lattice), ('real', n_real)):
             for i in range(n):
                 if custom_gen and k['name'] in custom_gen:
                     args = custom_gen[k['name']](g, stream)
                 else:
-                    args = [g.value(p[1], p[2] if len(p) > 2 else None, stream)
+                    args = [g.value(p[1], p[2] if len(p) > 2 else None, stream,
+                                    p[3] if len(p) > 3 else None)
                             for p in k['params']]
                 status, val = lbg.call_real(f, args, k.get('const_args'))
                 if status == 'err':
